@@ -210,3 +210,63 @@ def explore(prog, group, opc, walker=None):
 def enc_name(group, opc):
     b = oz.encoding_bytes(group, opc)
     return " ".join("d" if x is None else "%02X" % x for x in b)
+
+
+def final_cpu(prog, path):
+    """role -> final term (simplified under the path's branch facts); plus halted / skip_interrupt / int_mode /
+    active_prefix"""
+    out = _final_cpu(prog, path)
+    if path.facts:
+        for k, v in list(out.items()):
+            if isinstance(v, T) and not v.is_const():
+                out[k] = tm.subst(v, path.facts)
+    return out
+
+
+def _final_cpu(prog, path):
+    roles = cpu.bind_roles(prog)
+    cpuv = path.store[cpu.CPU]
+    fi = lambda n: prog.field_index(cpu.Z80, n)
+    regs = cpuv.fields[fi("regs")]
+    out = {}
+    for role, idx in roles.items():
+        if role.startswith("_"):
+            continue
+        out[role] = regs.fields[idx]
+    for pr, (hi, lo) in cpu.PAIRS.items():
+        out[pr] = tm.join16(out[hi], out[lo])
+    out["AF"] = tm.join16(out["A"], out["F"])
+    out["AF'"] = tm.join16(out["A'"], out["F'"])
+    out["halted"] = cpuv.fields[fi("halted")]
+    out["skip_interrupt"] = cpuv.fields[fi("skip_interrupt")]
+    im = cpuv.fields[fi("int_mode")]
+    ap = cpuv.fields[fi("active_prefix")]
+    IM = prog.adt_path("rustzx_z80", "IntMode")
+    PF = prog.adt_path("rustzx_z80", "Prefix")
+    out["int_mode"] = prog.variant_names(IM)[im.variant] if isinstance(im, Agg) else im
+    out["active_prefix"] = prog.variant_names(PF)[ap.variant] if isinstance(ap, Agg) else ap
+    return out
+
+
+INITIAL = cpu.role_symbols()
+INITIAL["AF"] = tm.join16(INITIAL["A"], INITIAL["F"])
+INITIAL["AF'"] = tm.join16(INITIAL["A'"], INITIAL["F'"])
+
+
+def side_effects(path, name):
+    out = []
+    for e in path.trace:
+        if e.path == BUS + name:
+            out.append(e)
+    return out
+
+
+def val(path, t):
+    """term t as seen under the path's branch facts"""
+    if isinstance(t, T) and not t.is_const() and path.facts:
+        return tm.subst(t, path.facts)
+    return t
+
+
+def eq_under(path, a, b):
+    return same(val(path, a), val(path, b))
